@@ -9,13 +9,24 @@ ZS = {'s': 0, 'd': 2}       # model sample axis: coordinate 2k <-> ordinal k; od
 
 
 def cands(n, b, extra=()):
-    """bounds in [0, n] on every residue class mod 4 and mod b that n allows"""
+    """bounds in [0, n] on every residue class mod 4 and mod b that n allows.  Every multiple of the blockshape is kept
+    with its neighbours; of the multiples of 4 only the first and last few (otherwise a long axis dilutes the block boundaries)"""
     c = {0, 1, 2, 3, 4, 5, 6, 7, n - 3, n - 2, n - 1, n}
-    for m in {4, b}:
-        for k in range(0, n + m + 1, m):
-            c |= {k - 1, k, k + 1, k + 2, k + 3}
+    mult4 = list(range(0, n + 5, 4))
+    for k in mult4[:4] + mult4[-3:]:
+        c |= {k - 1, k, k + 1, k + 2, k + 3}
+    for k in range(0, n + b + 1, b):
+        c |= {k - 1, k, k + 1, k + 2, k + 3}
     c |= set(extra)
     return sorted(v for v in c if 0 <= v <= n)
+
+
+def boundary_windows(n, b):
+    """sample windows that start at / just after / just before every block boundary, and ones that span it"""
+    w = []
+    for k in range(b, n, b):
+        w += [(k, min(n, k + 4)), (k + 1, min(n, k + 5)), (k - 1, min(n, k + 3)), (max(0, k - 5), k), (1, min(n, k + 2))]
+    return sorted({x for x in w if 0 <= x[0] < x[1] <= n})
 
 
 def thin(vals, rng, k):
@@ -60,6 +71,11 @@ def in_range_calls(F, rng, budget=300):
             calls.append(('get_trace', [t, w[0], w[1]]))
             calls.append(('get_trace_by_coord', [t, 2 * w[0], 2 * w[1]]))
             calls.append(('get_trace_by_coord', [t, NONE, NONE]))
+        bw = boundary_windows(nz, bz)
+        for j, w in enumerate(bw):
+            t = (j * 5) % nx
+            calls.append(('get_trace', [t, w[0], w[1]]))
+            calls.append(('read_subplane', [max(0, t - 1), min(nx, t + 2), w[0], w[1]]))
         return calls
     ci, cx, cz = cands(ni, bi), cands(nx, bx), cands(nz, bz)
     q = max(4, budget // 30)
@@ -94,6 +110,8 @@ def in_range_calls(F, rng, budget=300):
         calls.append(('get_trace', [t, w[0], w[1]]))
         calls.append(('get_trace_by_coord', [t, 2 * w[0], 2 * w[1]]))
         calls.append(('get_trace_by_coord', [t, NONE, NONE]))
+    for j, w in enumerate(boundary_windows(nz, bz)[:20]):
+        calls.append(('get_trace', [(j * 7) % tc, w[0], w[1]]))
     for cd in thin(range(-nx + 1, ni), rng, q):
         calls.append(('read_correlated_diagonal', [cd, NONE, NONE, NONE, NONE]))
         ln = min(ni - cd, nx) if cd >= 0 else min(ni, nx + cd)
